@@ -192,7 +192,7 @@ class Roles:
             if ty["name"] == self.entry:
                 return True
             if ty["name"] in (RAWTABLE, "hashbrown::raw::RawIntoIter", "hashbrown::raw::RawDrain", "hashbrown::raw::Bucket",
-                              "hashbrown::raw::RawIter"):
+                              "hashbrown::raw::RawIter", "std::boxed::Box", "std::rc::Rc", "std::sync::Arc", "std::vec::Vec"):
                 return False
             return any(self.contains_entry_by_value(a, depth + 1) for a in ty.get("args", []))
         if k == "tuple":
